@@ -66,6 +66,13 @@ impl<'a> Ev<'a> {
                     }
                     return self.call_fn(st, &fd, None, args);
                 }
+                // `Type::method` of a type outside the crate named as a function: the same value a method call gives
+                if let Some((ty, m)) = p.rsplit_once("::") {
+                    if ty.chars().next().map(|c| c.is_uppercase()).unwrap_or(false) && !self.ix.structs.contains_key(ty) && !self.ix.enums.contains_key(ty) && !args.is_empty() && m.chars().next().map(|c| c.is_lowercase()).unwrap_or(false) {
+                        let recv = args[0].clone();
+                        return self.builtin_method(st, &recv, m, args[1..].to_vec(), proc_macro2::Span::call_site());
+                    }
+                }
                 vec![(st, Flow::Val(Val::opaque(format!("call {p}"), args)))]
             }
             // a tuple variant named as a function: `.map(Self::Variant)`
